@@ -5,6 +5,9 @@
  *   fmt <kind> <v> <s> [<max> [<strict>]]   -> r=<0|-1> b=<hex of the whole buffer, untouched bytes are '#'>
  *   atol <kind> <hex>                       -> v=<int64>
  *   paxrec <key hex> <value hex>            -> b=<hex of the pax record `len key=value\\n`>
+ *   paxbody <hex of an extended-header body>  -> st=<st> [n=<k> x=<name:value,..>]   (the body is wrapped in an
+ *        'x' header in front of a plain ustar header and read by the tar reader; SCHILY.xattr.* records surface
+ *        as extended attributes, sorted)
  *   open f=<format> [bpb=<n>] [bilb=<n>] [filter=<name>] [opt=<write options>] [ropt=<read options>]
  *   ent k=v ...                             -> h=<st> w=<n>:<st> f=<st> len=<archive bytes so far, bpb=0 only>
  *        optional metadata: atime= ctime= btime= <sec>[.<nsec>], sparse=<off>:<len>,.. (the body is NUL
@@ -78,6 +81,60 @@ static void op_paxrec(char **w)
 	size_t n = vhx_pax_record(key, (const char *)v, vn, out, cap);
 	printf("b="); vh_puthex(out, n); putchar('\n');
 	free(out); free(key); free(k); free(v);
+}
+
+/* ---- pax record parser, observed through SCHILY.xattr.* attributes ---- */
+static void tar_hdr(unsigned char *h, const char *name, char type, size_t size)
+{
+	memset(h, 0, 512);
+	snprintf((char *)h, 100, "%s", name);
+	memcpy(h + 100, "0000644", 8); memcpy(h + 108, "0000000", 8); memcpy(h + 116, "0000000", 8);
+	snprintf((char *)h + 124, 12, "%011lo", (unsigned long)size);
+	memcpy(h + 136, "00000000000", 12);
+	h[156] = (unsigned char)type;
+	memcpy(h + 257, "ustar", 6); memcpy(h + 263, "00", 2);
+	memset(h + 148, ' ', 8);
+	unsigned sum = 0; for (int i = 0; i < 512; i++) sum += h[i];
+	snprintf((char *)h + 148, 8, "%06o", sum); h[155] = ' ';
+}
+
+static int cmp_str(const void *a, const void *b);
+
+static void op_paxbody(char **w)
+{
+	size_t n = 0; unsigned char *body = strcmp(w[1], "-") ? vh_unhex(w[1], &n) : NULL;
+	size_t pad = (512 - n % 512) % 512, total = 512 + n + pad + 512 + 1024;
+	unsigned char *ar = calloc(total, 1);
+	tar_hdr(ar, "x", 'x', n);
+	if (n) memcpy(ar + 512, body, n);
+	tar_hdr(ar + 512 + n + pad, "f", '0', 0);
+	struct archive *r = archive_read_new();
+	archive_read_support_format_tar(r);
+	struct archive_entry *e;
+	int st = archive_read_open_memory(r, ar, total);
+	if (st == ARCHIVE_OK) st = archive_read_next_header(r, &e);
+	printf("st=%s", vh_st(st));
+	if (st == ARCHIVE_OK) {
+		int nx = archive_entry_xattr_reset(e);
+		char **items = calloc((size_t)nx + 1, sizeof *items); int k = 0;
+		const char *name; const void *val; size_t vl;
+		while (k < nx && archive_entry_xattr_next(e, &name, &val, &vl) == ARCHIVE_OK) {
+			size_t nl = strlen(name);
+			char *it = malloc(2 * nl + 2 * vl + 8), *q = it;
+			if (nl == 0) q += sprintf(q, "-");
+			for (size_t i = 0; i < nl; i++) q += sprintf(q, "%02x", (unsigned char)name[i]);
+			q += sprintf(q, ":");
+			if (vl == 0) q += sprintf(q, "-"); else for (size_t i = 0; i < vl; i++) q += sprintf(q, "%02x", ((const unsigned char *)val)[i]);
+			items[k++] = it;
+		}
+		qsort(items, (size_t)k, sizeof *items, cmp_str);
+		printf(" n=%d x=", k);
+		for (int i = 0; i < k; i++) { printf("%s%s", i ? "," : "", items[i]); free(items[i]); }
+		if (k == 0) printf("-");
+		free(items);
+	}
+	putchar('\n');
+	archive_read_free(r); free(ar); free(body);
 }
 
 /* ---- write side -------------------------------------------------------- */
@@ -546,6 +603,7 @@ static void c_op(char *line)
 	if (!strcmp(w[0], "fmt") && n >= 4) op_fmt(w, n);
 	else if (!strcmp(w[0], "atol") && n == 3) op_atol(w);
 	else if (!strcmp(w[0], "paxrec") && n == 3) op_paxrec(w);
+	else if (!strcmp(w[0], "paxbody") && n == 2) op_paxbody(w);
 	else if (!strcmp(w[0], "open")) op_open(w, n);
 	else if (!strcmp(w[0], "ent")) op_ent(w, n);
 	else if (!strcmp(w[0], "close")) op_close(0);
